@@ -20,7 +20,7 @@ func init() {
 			"NICK forced by the server, NICK of other users to/from look-alike names, a server-side respelling of the client's nick in letter case only}; exhaustively for short scripts (collisions 0..3 x 2 welcomes x all event sequences up to length 3 or 4) and by PRNG up to length 40; tracking on/off (tracked sessions with and without a channel), " +
 			"generators {default, append '_', fixed-length rotation, identity, a stateful fallback list}; every consultation of a custom generator is recorded and a collision must be answered from exactly one consultation made with the refused nick. At every marker Me().Nick must equal the server's nick; Me() and Config().Me must be non-nil at every marker and inside every harness handler " +
 			"(Config().Me is sampled before anything calls Me()); after each 433 the next NICK on the wire must be generator(refused). DefaultNewNick is checked for all 256 last bytes x prefixes of length 0..3. " +
-			"Every other script installs its generator through Config() after Client(); a background NICK handler checks Me() for the client's own changes. Every fifth collision of the PRNG scripts is reported while the output queue is full; a fifth of the PRNG scripts switch state tracking on in the middle. Two clients of one process built from incomplete configurations are renamed independently; PRNG scripts may switch tracking off and on again. distinct_nontrivial = distinct (tracking, joined, generator, collisions, welcome kind, event-kind sequence prefix of length 3) cells; a script is non-trivial when it has a collision or a later change.",
+			"Every other script installs its generator through Config() after Client(); a background NICK handler checks Me() for the client's own changes. Every fifth collision of the PRNG scripts is reported while the output queue is full; a fifth of the PRNG scripts switch state tracking on in the middle. Two clients of one process built from incomplete configurations are renamed independently; PRNG scripts may switch tracking off and on again. Linger rounds: after a collision and welcome the link drops, the DISCONNECTED handler reconnects and stays busy while the new connection is welcomed under another nick and renamed; once the old teardown has finished Me() and Config().Me must carry the new connection's nick. distinct_nontrivial = distinct (tracking, joined, generator, collisions, welcome kind, event-kind sequence prefix of length 3) cells; a script is non-trivial when it has a collision or a later change.",
 		Assumptions: []string{"the client never asks for the nick it already has; before the welcome only the wire (NICK after 433) is judged, not Me()"},
 		Plan: func(tier string, seed int64) []Batch {
 			bs := []Batch{{Name: "defnick", Args: map[string]string{"mode": "defnick"}}}
